@@ -19,6 +19,7 @@ package builder
 import (
 	"fmt"
 	"sort"
+	"strconv"
 	"strings"
 
 	"golang.org/x/exp/maps"
@@ -349,7 +350,9 @@ func newExplainer(fontInfo *sfnt.Font) *explainer {
 		a, b := cmap.CodeRange()
 		for r := a; r <= b; r++ {
 			gid := cmap.Lookup(r)
-			if gid != 0 {
+			if gid != 0 && (strconv.IsPrint(r) || r == '\n' || r == '\r' || r == '\t') {
+				// Other runes are written as escape sequences by %q, which
+				// the parser does not understand.
 				mappings[gid] = fmt.Sprintf("%q", string([]rune{r}))
 			}
 		}
